@@ -560,6 +560,8 @@ Recursions == <<
   R("rec-via-handler", "(define (r07r@@ n) (if (= n 0) 0 (+ 1 (with-handler (lambda (e) 0) (r07r@@ (- n 1))))))", "(r07r@@ ", ")", "d", 5),
   R("rec-via-wind", "(define (r07r@@ n) (if (= n 0) 0 (+ 1 (dynamic-wind (lambda () 0) (lambda () (r07r@@ (- n 1))) (lambda () 0)))))", "(r07r@@ ", ")", "d", 5),
   R("rec-via-callcc", "(define (r07r@@ n) (if (= n 0) 0 (+ 1 (call/cc (lambda (k) (r07r@@ (- n 1)))))))", "(r07r@@ ", ")", "d", 5),
+  R("rec-via-stream", "(define (r07r@@ n) (if (= n 0) 0 (+ 1 (stream-car ((#%stream-cdr (stream-cons 0 (lambda () (stream-cons (r07r@@ (- n 1)) (lambda () empty-stream))))))))))", "(r07r@@ ", ")", "d", 4),
+  R("rec-via-sort", "(define (r07r@@ n) (if (= n 0) 0 (+ 1 (begin (sort (list 2 1) (lambda (a b) (r07r@@ (- n 1)) (< a b))) (- n 1)))))", "(r07r@@ ", ")", "d", 3),
   R("rec-via-eval", "(define (r07r@@ n) (if (= n 0) 0 (+ 1 (eval (list (quote r07r@@) (- n 1))))))", "(r07r@@ ", ")", "d", 4),
   R("rec-via-thread", "(define (r07r@@ n) (if (= n 0) 0 (+ 1 (r07r@@ (- n 1)))))", "(thread-join! (spawn-native-thread (lambda () (r07r@@ ", "))))", "d", 5),
   R("rec-error-at-bottom", "(define (r07r@@ n) (if (= n 0) (car (opaque 5)) (+ 1 (r07r@@ (- n 1)))))", "(r07r@@ ", ")", "err", 6),
